@@ -1,16 +1,26 @@
 """Scripted scenarios: stand-alone programs (most of them written by independent sub-agents hunting for violations on
 the unmodified library) that drive the real code with real threads / processes / loops through one precise history
 and judge it themselves.  `PYTHONPATH` points at /repo; a scenario prints a line starting with `VIOLATION:` and exits
-1 when the property fails on that history, exits 0 otherwise.  They complement the generated explorations with
+1 when the property fails on that history, exits 2 when it could not set its history up (no verdict), 0 otherwise.  They complement the generated explorations with
 histories that are awkward to generate (fork during a blocking acquire, a loop that is not running while the wall
 clock advances, garbage collection inside a critical section, ...)."""
 import os
+import shutil
 import subprocess
 import sys
+import tempfile
 
 from .common import Outcome, REPO, fingerprint
 
 DIR = os.path.join(os.path.dirname(os.path.dirname(os.path.abspath(__file__))), 'scenarios')
+
+
+def _run(name, env):
+    try:
+        return subprocess.run([sys.executable, os.path.join(DIR, name)], env=env, stdin=subprocess.DEVNULL,
+                              stdout=subprocess.PIPE, stderr=subprocess.PIPE, text=True, timeout=300)
+    except subprocess.TimeoutExpired:
+        return None
 
 
 def run_scenarios(prop, quick, only=None):
@@ -27,11 +37,13 @@ def run_scenarios(prop, quick, only=None):
             continue
         out.evaluations += 1
         case = {'scenario': name}
-        env = dict(os.environ, PYTHONPATH=REPO)
+        scratch = tempfile.mkdtemp(prefix='aiuti-verif-scn-')     # the scenarios' lock files etc.; removed afterwards
+        env = dict(os.environ, PYTHONPATH=REPO, TMPDIR=scratch)
         try:
-            p = subprocess.run([sys.executable, os.path.join(DIR, name)], env=env, stdin=subprocess.DEVNULL,
-                               stdout=subprocess.PIPE, stderr=subprocess.PIPE, text=True, timeout=300)
-        except subprocess.TimeoutExpired:
+            p = _run(name, env)
+        finally:
+            shutil.rmtree(scratch, ignore_errors=True)
+        if p is None:
             out.concrete.append({'case': case, 'what': f'scenario {name} did not finish within 300 s',
                                  'signature': {'kind': 'scenario-hang', 'name': name}})
             continue
@@ -39,10 +51,15 @@ def run_scenarios(prop, quick, only=None):
         if p.returncode == 1 and lines:
             out.concrete.append({'case': case, 'what': f'scenario {name}: {lines[0][:700]}', 'observed': p.stdout[-1500:],
                                  'signature': {'kind': 'scenario', 'name': name}})
+        elif p.returncode == 2:
+            # the scenario could not set its history up (a control phase was disturbed, e.g. by machine load): no verdict
+            out.count('scenario-skipped:' + name[:-3])
         elif p.returncode != 0:
-            out.concrete.append({'case': case, 'what': f'scenario {name} failed to run (exit {p.returncode}): '
-                                                      f'{(p.stderr or p.stdout)[-400:]}',
-                                 'signature': {'kind': 'scenario-error', 'name': name}})
+            # the scripted history no longer runs as it does on the pinned tree (an exception nobody expected): that
+            # breaks the tie between this scenario and the code, it is not by itself a failing input
+            out.diffs.append({'case': case, 'impl': (p.stderr or p.stdout)[-1500:], 'model': 'scenario runs to its verdict',
+                              'where': f'scenario {name} failed to run (exit {p.returncode}): '
+                                       f'{(p.stderr or p.stdout).strip().splitlines()[-1][:300] if (p.stderr or p.stdout).strip() else ""}'})
         else:
             out.traces_validated += 1
             out.fingerprints.add(fingerprint(case))
